@@ -127,6 +127,7 @@ def run(tier, seed):
     units.sort(key=lambda u: -(u.get('N', 0) * len(u.get('devsets', []))))
     for part in pmap(ex.run_unit, units):
         chk.merge(part)
+    chk.expect('executions', len(units))
     chk.assumptions = ["bit-identity is judged with torch.equal in one process, one thread, float64",
                        "queries come from the stated grids / solver-shaped schedules only"]
     return chk
